@@ -28,7 +28,7 @@ def firstUndeclared (known : List String) : List (String × List String) → Opt
 /-- names every generated translation unit may use without a registration: library functions, the
     helpers of `naunet_physics.h`, the abundance vector, the global constants -/
 def builtins : List String :=
-  ["sqrt", "exp", "pow", "log", "log10", "fabs", "fmin", "fmax", "y", "GetMantleDens", "GetShieldingFactor",
+  ["sqrt", "exp", "pow", "log", "log10", "fabs", "abs", "fmin", "fmax", "y", "GetMantleDens", "GetShieldingFactor",
    "GetCharactWavelength", "GetGrainScattering", "GetNumDens", "GetMu", "GetGamma", "GetHNuclei", "GetElementAbund"]
   ++ Tables.globalConstants
 
